@@ -136,6 +136,42 @@ def check_differential(chk, prog, sim):
         chk.discharge(key)
 
 
+def check_update_terminals_first(chk, prog, sim):
+    """A command may reach a device terminal through a getter the terminal follows; it is stored only by Terminal::update
+    (update_terminals).  The device must therefore refresh its terminals before it reads them, or the newest command is relayed one
+    round late (and never reaches a chain updated in order).  Decided with Terminal::update and the terminal reads kept opaque."""
+    key = "relay:update_terminals-first"
+    chk.obligation(key, "every device update refreshes its terminals before reading them")
+    ok = True
+    sim.inline_filter = lambda f: not (is_adt(f.get("impl_self") or {}, "Terminal") and
+                                       ((f["name"] == "update" and (f.get("impl_trait") or "").endswith("Updatable")) or
+                                        (f["name"] == "get" and (f.get("impl_trait") or "").endswith("Getter"))))
+    try:
+        for dev, n in (("Invert", None), ("GearTrain", None), ("Axle", 2), ("Differential", None)):
+            nt = n if dev == "Axle" else R.NTERMS[dev]
+            fn, leaves, dh, pre = R.run_update(sim, prog, dev, [dict(cmd=True, state=True) for _ in range(nt)], n)
+            nread = 0
+            for leaf in leaves:
+                chk.evaluated(1, nontrivial=(key, dev, repr(leaf.pc)[:120]))
+                # (a path the simulator cannot finish with opaque reads still shows the order of the calls made so far, which is all this rule needs)
+                evs = [(i, e[2].split("::")[-1]) for i, e in enumerate(leaf.effects) if e[0] == "call" and e[2].startswith("Terminal<")]
+                reads = [i for i, nm in evs if nm == "get"]
+                upds = [i for i, nm in evs if nm == "update"]
+                nread += len(reads)
+                if reads and (len(upds) < nt or min(reads) < max(upds[:nt])):
+                    chk.violation("C13.relay", "%s:%s" % (key, dev), "%s::update (%s) reads a terminal before all of its terminals have been refreshed (update_terminals): a command arriving through a followed getter "
+                                  "is relayed one round late" % (dev, loc(fn["span"])), fn=fn["pretty"], file=loc(fn["span"]))
+                    ok = False
+                    break
+            if nread == 0:
+                chk.violation("floor", "C13.terminal-reads:" + dev, "%s::update never reads a terminal (rule would be vacuous)" % dev)
+                ok = False
+    finally:
+        sim.inline_filter = None
+    if ok:
+        chk.discharge(key)
+
+
 def run(chk):
     prog = load_config("K1")
     chk.configs.append("K1")
@@ -149,6 +185,7 @@ def run(chk):
     for n in range(1, maxn + 1):
         check_device(chk, prog, sim, "Axle", n)
     check_differential(chk, prog, sim)
+    check_update_terminals_first(chk, prog, sim)
     # release profile (K6 = default features, --release): debug_assert!(..) and its argument are compiled out, so a write or a
     # call moved inside one silently disappears; the same tables must hold there
     import report as _report
